@@ -27,7 +27,7 @@ BASE_CFG = {"max_nodes": 5, "n_tables": (1, 2), "final_order": 0.3, "expr_mode":
 MUTATIONS = [
     "none", "lit_value", "lit_type", "operator", "method", "column_ref", "jointype", "join_on", "reverse", "limit", "partition_by",
     "order_by", "concat_id", "concat_label", "record_cell", "record_key", "select_order", "group_by_order", "order_cols_order",
-    "table_columns", "drop_list", "rename_target", "extend_target", "collection",
+    "table_columns", "drop_list", "rename_target", "extend_target", "collection", "logic_chain", "window_flag",
 ]
 
 
@@ -65,6 +65,21 @@ def mutate(case, kind, pick):
     reach = [i for i in spec.reachable(c) if c["nodes"][i]["op"] != "table"]
     sch = schema.infer(c)
     if kind == "none":
+        return c
+    if kind == "logic_chain":
+        # `a and b` -> `a and b and a`: one n-ary expression whose argument list is a proper extension of the other's
+        sites = []
+        for i in reach:
+            for holder, key in _exprs(c["nodes"][i]):
+                for sub, path in _walk(holder[key]):
+                    if sub[0] == "call" and sub[1] in ("and", "or") and len(sub[2]) == 2:
+                        sites.append((holder, key, path, sub))
+        if not sites:
+            return None
+        holder, key, path, sub = pick(sites)
+        import copy as _copy
+
+        _subst(holder, key, path, ["call", sub[1], list(sub[2]) + [_copy.deepcopy(sub[2][0])]])
         return c
     if kind == "collection":
         # one element of an is_in list / one entry of a mapv dict changed, added or removed
@@ -202,6 +217,27 @@ def mutate(case, kind, pick):
             nd["partition_by"] = nd["partition_by"][:-1] if pick([True, False]) else list(reversed(nd["partition_by"]))
         else:
             nd["partition_by"] = 1
+        return c
+    if kind == "window_flag":
+        # partition_by=1 (window over the whole table) <-> no window at all, everything else unchanged; for operators
+        # that do not imply a window by themselves (_size(), _count()) the flag is the only difference
+        cand = of("extend", lambda nd: nd.get("partition_by") == 1 and not nd.get("order_by"))
+        if cand:
+            i, nd = pick(cand)
+            nd.pop("partition_by")
+            return c
+        plain = of("extend", lambda nd: not nd.get("partition_by") and not nd.get("order_by"))
+        if not plain:
+            return None
+        i, nd = pick(plain)
+        free = [n for n in ("n", "c", "b", "k", "a") if n not in sch[i].cols]
+        if not free:
+            return None
+        # a fresh pair built here: p gets `_size()` as a plain extend step, q the same with partition_by=1
+        new = {"op": "extend", "src": i, "ops": [[free[0], ["call", "_size", []]]]}
+        c["nodes"].append(new)
+        c["root"] = len(c["nodes"]) - 1
+        c["_window_flag_pair"] = True
         return c
     if kind == "order_by":
         cand = of("extend", lambda nd: len(nd.get("order_by") or []) >= 2)
@@ -422,7 +458,7 @@ def replay(check_name, pair):
 def pairs(draw, closed=()):
     cfg = dict(BASE_CFG)
     cfg["closed"] = set(closed)
-    if draw(st.integers(0, 2)) == 0:
+    if draw(st.sampled_from(range(9))) in (2, 5, 7):  # (sampled_from is near uniform; integers() favours 0)
         from . import c12  # programs with is_in lists / mapv dicts (printing-sensitive enrichment)
 
         p = c12.draw_case(draw, closed)
@@ -431,12 +467,19 @@ def pairs(draw, closed=()):
         p = gen.draw_program(draw, cfg)
         kinds = draw(st.permutations(MUTATIONS))
     pick = lambda xs: draw(st.sampled_from(list(xs)))
-    for kind in kinds[:8]:
+    if draw(st.sampled_from(range(10))) == 7:
+        return {"p": p, "q": spec.clone(p), "mutation": "none"}  # equal pairs on purpose (reflexivity, same behaviour)
+    for kind in [k for k in kinds if k != "none"]:
         try:
             q = mutate(p, kind, pick)
         except (KeyError, IndexError, schema.TypeErr):
             q = None
         if q is not None:
+            if q.pop("_window_flag_pair", None):
+                # both members are new: ... .extend({n: _size()}) without a window / with partition_by=1
+                p2 = spec.clone(q)
+                q["nodes"][q["root"]]["partition_by"] = 1
+                return {"p": p2, "q": q, "mutation": kind}
             return {"p": p, "q": q, "mutation": kind}
     return {"p": p, "q": spec.clone(p), "mutation": "none"}
 
